@@ -61,13 +61,13 @@
                                            about an absolute child -- its whole subtree, sizes, insets, margins, alignment -- except its
                                            grid placement lines; in particular AbsBlind holds for ab = "box-generating, absolute, on lines
                                            (r, c)", for every r, c (auto / auto included)
-     C06_grid_engine_instance              hence the conclusion of C06_abs_blind_engine for every engine of grid containers and leaves, for
+     C06_grid_engine_instance_partial              hence the conclusion of C06_abs_blind_engine for every engine of grid containers and leaves, for
                                            the absolute nodes of any one line class
    KEYED engine theorem (Proofs/EngineAbsKey.v: Proofs/EngineAbs.v with a `key` = what a parent may read of an out-of-flow child's style):
      C06_abs_blind_engine_keyed            for every algorithm that is AbsBlindK: trees that coincide up to oeq / leq outside the subtrees of
                                            out-of-flow nodes WHOSE KEYS AGREE stay so through any evaluation; AbsBlind implies AbsBlindK
      C06_grid_algorithm_abs_blind_keyed    the grid algorithm is AbsBlindK for ALL box-generating absolute children, key = (grid_row, grid_column)
-     C06_taffy_engine_instance             hence, for every engine whose nodes are block, flex, grid containers or leaves (every kind
+     C06_taffy_engine_instance_partial             hence, for every engine whose nodes are block, flex, grid containers or leaves (every kind
                                            TaffyView::compute_child_layout dispatches on): replacing the subtree and the style of box-generating
                                            absolute nodes by anything absolute with the same grid lines changes nothing outside those subtrees but
                                            content sizes -- C06 for all of taffy, up to exactly the known finding (the lines) *)
@@ -355,7 +355,13 @@ Theorem C06_block_real_absolute_routine_local :
   forall (T : Type) (N : Num T), AbsChildLocal (abs_child_block (T := T)).
 Proof. intros T N. apply abs_child_block_local. Qed.
 
-Theorem C06_block_engine_real_instance :
+(* PARTIAL (renamed by the audit of wave 7b): this is C06_block_engine_instance_partial at abs_child := abs_child_block, with the same
+   conclusion and therefore the same gap (asim leaves the subtree of EVERY out-of-flow node unconstrained and ignores content_size on
+   every node).  NOTE the engine: nodes are bare BStyles, dispatch is an arbitrary predicate `sel` of the node's OWN style and the leaf is
+   arbitrary -- `bl_algo` (Model/BlockEngine.v: dispatch on the number of children, leaf = compute_leaf_layout with the node's measure
+   function), the engine `vh blocktree` runs, is NOT an instance of this form.  The statement about the engine that is run is
+   C06_bl_engine_real_instance_partial below. *)
+Theorem C06_block_engine_real_instance_partial :
   forall (T : Type) (N : Num T) (pre : BStyle T -> BIn T -> BIn T)
          (sel : BStyle T -> bool) (leaf : BStyle T -> BIn T -> ChildOut T)
          (mode : BIn T -> RunMode) (in_eqb : BIn T -> BIn T -> bool) (is_none : BStyle T -> bool)
@@ -495,6 +501,58 @@ Theorem C06_bl_algorithm_abs_blind :
     AbsChildLocal abs_child ->
     AbsBlind (BNode T) (BIn T) (ChildOut T) (BLayout T) (bl_algo pre abs_child) bn_visible_absolute out_eq lay_eq.
 Proof. exact bl_algo_abs_blind. Qed.
+
+(* ... hence, for the engine `vh blocktree cases` RUNS (Model/BlockEngineRun.v: `bl_memo block_pre abs_child_block` = Engine.memo with the exact
+   key bin_eqb over `bl_algo`: dispatch on the number of children, leaf = compute_leaf_layout with the node's measure function, the real
+   preprocessing and the real absolute routine), any `Num`: the conclusion of C06_abs_blind_engine_partial, no premise left.  (Audit of
+   wave 7b: C06_block_engine_real_instance_partial above is about a `sel` / `leaf` engine over bare styles that no runner executes.)
+   PARTIAL for the reason C06_abs_blind_engine_partial is: asim leaves the subtree of every out-of-flow node unconstrained -- an UNCHANGED
+   absolute sibling is not covered -- and ignores content_size on every node.  Exact-key memo: the implementation under the verification
+   hook. *)
+Theorem C06_bl_engine_real_instance_partial :
+  forall (T : Type) (N : Num T) f f' t t' i o t1 o' t1',
+    asim (BNode T) (BIn T) (ChildOut T) (BLayout T) bn_visible_absolute out_eq lay_eq t t' ->
+    bl_memo block_pre abs_child_block f t i = Some (o, t1) ->
+    bl_memo block_pre abs_child_block f' t' i = Some (o', t1') ->
+    asim (BNode T) (BIn T) (ChildOut T) (BLayout T) bn_visible_absolute out_eq lay_eq t1 t1' /\
+    (bn_visible_absolute (style_of (BNode T) (BIn T) (ChildOut T) (BLayout T) t) = false -> out_eq o o').
+Proof.
+  intros T N f f' t t' i o t1 o' t1' Hs E E'. unfold bl_memo in *.
+  eapply (C06_abs_blind_engine_partial (BNode T) (BIn T) (ChildOut T) (BLayout T) bi_mode bin_eqb bn_is_none hidden_child_out zero_blay
+            (bl_algo block_pre abs_child_block) bn_visible_absolute out_eq lay_eq); eauto.
+  - apply out_eq_refl.
+  - apply lay_eq_refl.
+  - apply bl_algo_abs_blind. apply abs_child_block_local.
+Qed.
+
+(* computed instance over XQ (Model/BlockAbsExample2.v): the 7-node scroll container of Model/BlockAbsExample.v against the same tree with the
+   absolute CONTAINER R (and its child) replaced by a bare absolute leaf 7 x 9; the fresh trees are asim; both evaluations succeed; root size
+   212 x 52 on both sides, content sizes 203 x 69 vs 203 x 51 (they DIFFER: content_size is what the statement leaves out); the stored boxes
+   of A, P, Q and F coincide (listed in r_check); the theorem's conclusion for this pair *)
+From TV Require Import Model.BlockRoot Model.BlockAbsExample Model.BlockAbsExample2.
+Example C06_bl_engine_real_example :
+  asim (BNode XQ) (BIn XQ) (ChildOut XQ) (BLayout XQ) bn_visible_absolute out_eq lay_eq (bl_fresh exr_tree) (bl_fresh exr_tree') /\
+  r_check = true /\
+  exists o t o' t', r_run exr_tree = Some (o, t) /\ r_run exr_tree' = Some (o', t') /\
+    asim (BNode XQ) (BIn XQ) (ChildOut XQ) (BLayout XQ) bn_visible_absolute out_eq lay_eq t t' /\ out_eq o o'.
+Proof.
+  assert (Hs : asim (BNode XQ) (BIn XQ) (ChildOut XQ) (BLayout XQ) bn_visible_absolute out_eq lay_eq (bl_fresh exr_tree) (bl_fresh exr_tree')).
+  { pose proof (asim_refl (BNode XQ) (BIn XQ) (ChildOut XQ) (BLayout XQ) bn_visible_absolute out_eq lay_eq out_eq_refl lay_eq_refl) as R.
+    pose proof (crel_refl (BIn XQ) (ChildOut XQ) out_eq out_eq_refl) as C.
+    apply asim_node; [apply C|apply lay_eq_refl|].
+    constructor; [apply R|]. constructor; [apply R|]. constructor; [apply R|]. constructor; [|constructor; [apply R|constructor]].
+    apply asim_abs; vm_compute; reflexivity. }
+  split; [exact Hs|].
+  split; [vm_compute; reflexivity|].
+  let v := eval vm_compute in (r_run exr_tree) in assert (E : r_run exr_tree = v) by (vm_compute; reflexivity).
+  let v := eval vm_compute in (r_run exr_tree') in assert (E' : r_run exr_tree' = v) by (vm_compute; reflexivity).
+  match type of E with _ = Some (?o, ?t) => match type of E' with _ = Some (?o', ?t') =>
+    exists o, t, o', t'; split; [exact E|]; split; [exact E'|];
+    destruct (C06_bl_engine_real_instance_partial XQ _ ex_fuel ex_fuel _ _ r_in o t o' t' Hs E E') as [Ht Ho];
+    split; [exact Ht|]; apply Ho; vm_compute; reflexivity
+  end end.
+Qed.
+
 
 (* C06_block_inflow_abs_blind / _delete_absolute, concrete over XQ: a container 212 wide with an in-flow child, an absolute
    child and another in-flow child; on the other side the absolute child has another style and another output and the first
@@ -662,8 +720,11 @@ Qed.
 
 (* engines made of grid containers (sel s = true) and leaves: two trees that coincide up to content_size outside the subtrees of
    box-generating absolute nodes on the lines (r, c) stay so through any pair of evaluations, and every node that is not itself such a
-   node returns the same output up to content_size *)
-Theorem C06_grid_engine_instance :
+   node returns the same output up to content_size.
+   PARTIAL (renamed by the audit of wave 7b): the absolute nodes of ONE line class (r, c) only -- the text says "with any ... grid-placement
+   styles" (the gap is the known finding C06/grid-estimate-absolute) --, plus the gaps of C06_abs_blind_engine_partial; both evaluations are
+   premises (`= Some`); `grid_leaf_algo` over GStyle is evaluated by no runner (the complete engine below is) *)
+Theorem C06_grid_engine_instance_partial :
   forall (T : Type) (N : Num T) (sel : GStyle T -> bool) (leaf : GStyle T -> GIn T -> LayoutOutput T) (r c : PB.Ln PB.GP)
          (mode : GIn T -> Engine.RunMode) (in_eqb : GIn T -> GIn T -> bool) (is_none : GStyle T -> bool)
          (hidden_out : LayoutOutput T) (zero_lay : GLay T),
@@ -729,8 +790,14 @@ Proof. intros T N. apply grid_alg_abs_blind_keyed. Qed.
    content_size.  (Only a grid parent reads the lines; the premise on them is what the known finding C06/grid-estimate-absolute costs.)
    `disp` is ANY dispatch on (own style, number of children), `leaf` ANY leaf routine; with `taffy_dispatch`, `block_pre`,
    `abs_child_block` (AbsChildLocal: C06_block_real_absolute_routine_local), `taffy_leaf` this is the engine `vh taffytree` runs against the
-   implementation on whole trees (notes/TAFFYTREE.md) *)
-Theorem C06_taffy_engine_instance :
+   implementation on whole trees (notes/TAFFYTREE.md).
+   PARTIAL (renamed by the audit of wave 7b): absolute nodes must KEEP their grid lines (the text: "with any ... grid-placement styles ...");
+   the stored layout of the absolute node itself and everything below it is unconstrained (asim_abs); content_size is ignored; both
+   evaluations are premises (`= Some`: no totality lemma for real_algo); ONE memoised query -- the runner evaluates
+   taffy_compute_root (root input from the root style, root layout stored) over SEVERAL passes: C06_taffy_layout_pass(es)_partial at the end of this file; where the
+   Rust code panics the grid branch is the stand-in of Model/GridAlgTotal.v (both sides then are the same resumption by construction).
+   Computed instance: C06_taffy_engine_example. *)
+Theorem C06_taffy_engine_instance_partial :
   forall (T : Type) (N : Num T) (disp : TStyle T -> nat -> TKind) (pre : BStyle T -> BIn T -> BIn T)
          (abs_child : @AbsChild T) (leaf : TStyle T -> FIn T -> LayoutOutput T)
          (mode : FIn T -> Engine.RunMode) (in_eqb : FIn T -> FIn T -> bool) (is_none : TStyle T -> bool)
@@ -767,16 +834,147 @@ Print Assumptions C06_block_source_predicates.
 Print Assumptions C06_block_algorithm_abs_blind.
 Print Assumptions C06_block_engine_instance_partial.
 Print Assumptions C06_block_real_absolute_routine_local.
-Print Assumptions C06_block_engine_real_instance.
+Print Assumptions C06_block_engine_real_instance_partial.
 Print Assumptions C06_block_resumption_runs_kernel.
 Print Assumptions C06_block_content_width_ignores_absolute.
 Print Assumptions C06_block_resumption_query_inputs.
 Print Assumptions C06_flex_algorithm_abs_blind.
 Print Assumptions C06_blockflex_engine_instance.
 Print Assumptions C06_bl_algorithm_abs_blind.
+Print Assumptions C06_bl_engine_real_instance_partial.
+Print Assumptions C06_bl_engine_real_example.
 Print Assumptions C06_grid_algorithm_abs_blind_refuted.
 Print Assumptions C06_grid_algorithm_abs_blind_lines.
-Print Assumptions C06_grid_engine_instance.
+Print Assumptions C06_grid_engine_instance_partial.
 Print Assumptions C06_abs_blind_engine_keyed.
 Print Assumptions C06_grid_algorithm_abs_blind_keyed.
-Print Assumptions C06_taffy_engine_instance.
+Print Assumptions C06_taffy_engine_instance_partial.
+
+(* ------------------------------------------------------------------------------------------------------------ *)
+(** * Computed instances of the grid-algorithm and complete-engine theorems (audit, wave 7b)
+
+   No grid or taffy-engine theorem of this file had a computed Example: keyed `asim` / `lrel` were never exhibited on a grid. *)
+From TV Require Import Model.TaffyRoot Model.TaffyKey Model.TaffyExample Model.TaffyExample2 Proofs.GridAlgExamples Proofs.BlockAbsLocal.
+From TV Require Model.MeasureFamily.
+
+(* the three heights 28 / 7 / 0 of C06_grid_algorithm_abs_blind_refuted are not the stand-in's: the Rust code does not panic on any of the
+   three inputs (0 x 0 is also what `Ret panic_out` would return) *)
+Example C06_grid_algorithm_abs_blind_refuted_no_panic :
+  grid_no_panic gab_container [gab_child4] (gab_input Engine.ComputeSize) = true /\
+  grid_no_panic gab_container [gab_child_bare] (gab_input Engine.ComputeSize) = true /\
+  grid_no_panic gab_container [] (gab_input Engine.ComputeSize) = true.
+Proof. repeat split; vm_compute; reflexivity. Qed.
+
+(* grid algorithm (Proofs/GridAlgExamples.v): the baseline-aligned two-column grid with an ABSOLUTE child between its two in-flow items, on
+   grid_row 1 / span 1, grid_column 2 on both sides; 40 x 15 with inset-left 3 on one side, 99 x 77 with margin 5 on the other: lrel, the lists
+   differ, no panic, the 17 events before the absolute child's layout are identical, the absolute child's own box differs (13, 0, 40 x 15
+   vs 15, 5, 99 x 77), the result is 20 x 30 on both sides; and ABis through the theorem *)
+Example C06_grid_algorithm_abs_blind_lines_example :
+  Forall2 (lrel g_visible_absolute) st_a st_b /\ st_a <> st_b /\
+  grid_no_panic gns_container st_a g_pl = true /\ grid_no_panic gns_container st_b g_pl = true /\
+  walk 60 (grid_alg gns_container st_a g_pl) = common_prefix ++ [ES 1 (xq 13) (xq 0) (xq 40) (xq 15); ER (xq 20) (xq 30)] /\
+  walk 60 (grid_alg gns_container st_b g_pl) = common_prefix ++ [ES 1 (xq 15) (xq 5) (xq 99) (xq 77); ER (xq 20) (xq 30)] /\
+  ABis (GIn XQ) (LayoutOutput XQ) (GLay XQ) gout_eq glay_eq (abmask (GStyle XQ) g_visible_absolute st_a)
+       (grid_alg gns_container st_a g_pl) (grid_alg gns_container st_b g_pl).
+Proof.
+  assert (Hr : Forall2 (lrel g_visible_absolute) st_a st_b).
+  { constructor; [left; reflexivity|]. constructor; [right; repeat split; reflexivity|]. constructor; [left; reflexivity|constructor]. }
+  split; [exact Hr|].
+  split; [intros E; apply (f_equal (fun l => option_map (fun s => size (gs_core s)) (nth_error l 1))) in E; vm_compute in E; discriminate|].
+  split; [vm_compute; reflexivity|]. split; [vm_compute; reflexivity|]. split; [vm_compute; reflexivity|]. split; [vm_compute; reflexivity|].
+  apply (proj1 (C06_grid_algorithm_abs_blind_lines XQ _) g_visible_absolute (fun _ E => E)). exact Hr.
+Qed.
+
+(* complete engine (Model/TaffyExample2.v): block root 200 > [GRID 50px 50px > [leaf 20 x 10; ABS; text leaf]; leaf 10 x 10] with ABS on
+   grid_row 1 / span 1, grid_column 2 -- a 40 x 15 flex CONTAINER with a 33 x 44 child on one side, a bare 99 x 77 block leaf on the other:
+   keyed asim of the fresh trees, the styles differ, the lines agree, BOTH evaluations of the engine `vh taffytree` runs succeed, the
+   theorem's conclusion, output 200 x 20 on both sides, all boxes: everything but ABS and its subtree coincides *)
+Notation xmemo := (Engine.memo (TStyle XQ) (FIn XQ) (LayoutOutput XQ) (FLay XQ) qi_mode (fin_eqb_with xq_seqb) t_is_none output_HIDDEN (f_with_order 0)
+                      (taffy_algo taffy_dispatch BlockEngine.block_pre abs_child_block taffy_leaf)).
+Notation kasim := (EngineAbsKey.asim (TStyle XQ) (FIn XQ) (LayoutOutput XQ) (FLay XQ) t_visible_absolute _ t_lines fout_eq flay_eq).
+Example C06_taffy_engine_example :
+  kasim (taffy_fresh ak) (taffy_fresh ak') /\ s_absa <> s_absb /\ t_lines s_absa = t_lines s_absb /\
+  exists o t o' t',
+    xmemo 8 (taffy_fresh ak) a_in = Some (o, t) /\
+    xmemo 8 (taffy_fresh ak') a_in = Some (o', t') /\
+    kasim t t' /\ fout_eq o o' /\
+    xq_is (width (out_size o)) 200 && xq_is (height (out_size o)) 20 = true /\
+    boxes_are (bxz t)  [(0,0,0,0); (0,0,200,10); (0,0,20,10); (50,0,40,15); (0,0,33,44); (50,0,50,10); (0,10,10,10)]%Z = true /\
+    boxes_are (bxz t') [(0,0,0,0); (0,0,200,10); (0,0,20,10); (50,0,99,77); (50,0,50,10); (0,10,10,10)]%Z = true.
+Proof.
+  assert (Hs : kasim (taffy_fresh ak) (taffy_fresh ak')).
+  { unfold ak, ak', TL, taffy_fresh. cbn [Engine.fresh map].
+    apply EngineAbsKey.asim_node; [apply EngineAbsKey.crel_refl; apply fout_eq_refl|apply flay_eq_refl|].
+    constructor; [|constructor; [apply EngineAbsKey.asim_refl; [apply fout_eq_refl|apply flay_eq_refl]|constructor]].
+    apply EngineAbsKey.asim_node; [apply EngineAbsKey.crel_refl; apply fout_eq_refl|apply flay_eq_refl|].
+    constructor; [apply EngineAbsKey.asim_refl; [apply fout_eq_refl|apply flay_eq_refl]|].
+    constructor; [apply EngineAbsKey.asim_abs; reflexivity|].
+    constructor; [apply EngineAbsKey.asim_refl; [apply fout_eq_refl|apply flay_eq_refl]|constructor]. }
+  split; [exact Hs|].
+  split; [intros E; apply (f_equal (fun s => display (t_core s))) in E; vm_compute in E; discriminate|]. split; [reflexivity|].
+  assert (X : match xmemo 8 (taffy_fresh ak) a_in, xmemo 8 (taffy_fresh ak') a_in with
+              | Some (o, t), Some (_, t') =>
+                  xq_is (width (out_size o)) 200 && xq_is (height (out_size o)) 20 &&
+                  boxes_are (bxz t)  [(0,0,0,0); (0,0,200,10); (0,0,20,10); (50,0,40,15); (0,0,33,44); (50,0,50,10); (0,10,10,10)]%Z &&
+                  boxes_are (bxz t') [(0,0,0,0); (0,0,200,10); (0,0,20,10); (50,0,99,77); (50,0,50,10); (0,10,10,10)]%Z
+              | _, _ => false end = true) by (vm_compute; reflexivity).
+  remember (xmemo 8 (taffy_fresh ak) a_in) as r eqn:E. remember (xmemo 8 (taffy_fresh ak') a_in) as r' eqn:E'.
+  destruct r as [[o t]|]; [|discriminate X]. destruct r' as [[o' t']|]; [|discriminate X].
+  exists o, t, o', t'. split; [reflexivity|]. split; [reflexivity|].
+  pose proof (C06_taffy_engine_instance_partial XQ _ taffy_dispatch BlockEngine.block_pre abs_child_block taffy_leaf qi_mode (fin_eqb_with xq_seqb)
+                t_is_none output_HIDDEN (f_with_order 0) (abs_child_block_local (T := XQ))) as Hthm.
+  cbv zeta in Hthm.
+  destruct (Hthm 8%nat 8%nat (taffy_fresh ak) (taffy_fresh ak') a_in o t o' t' Hs (eq_sym E) (eq_sym E')) as [Ht Ho].
+  split; [exact Ht|]. split; [apply Ho; reflexivity|].
+  apply andb_true_iff in X. destruct X as [X X3]. apply andb_true_iff in X. destruct X as [X1 X2].
+  repeat split; assumption.
+Qed.
+
+(* ---- what `vh taffytree` really evaluates (Model/TaffyEngineRun.v run_case = Model/TaffyRoot.v real_layout_passes): compute_root_layout -- the
+   root input computed from the root style, ONE memoised query, the root's own layout stored -- and SEVERAL compute_layout calls on the same
+   tree (Proofs/TaffyRootAbs.v; audit, wave 7b: C06_taffy_engine_instance_partial is about one memoised query).  Any dispatch / preprocessing /
+   leaf / key equality, any LOCAL absolute routine, any `Num`, any two fuels, any trees that are keyed-asim (any cache contents) and whose
+   root is not a box-generating absolute node.  PARTIAL for the reasons C06_taffy_engine_instance_partial is (absolute nodes keep their grid
+   lines; their own subtree and content_size unconstrained; the passes are premises) *)
+From TV Require Proofs.TaffyRootAbs.
+Theorem C06_taffy_layout_pass_partial :
+  forall (T : Type) (N : Num T) (teq : T -> T -> bool) (disp : TStyle T -> nat -> TKind) (pre : BStyle T -> BIn T -> BIn T)
+         (abs_child : @AbsChild T) (leaf : TStyle T -> FIn T -> LayoutOutput T),
+    AbsChildLocal abs_child ->
+    forall f f' (t t' : Engine.tree (TStyle T) (FIn T) (LayoutOutput T) (FLay T)) avail u u',
+      EngineAbsKey.asim (TStyle T) (FIn T) (LayoutOutput T) (FLay T) t_visible_absolute _ t_lines fout_eq flay_eq t t' ->
+      t_visible_absolute (style_of (TStyle T) (FIn T) (LayoutOutput T) (FLay T) t) = false ->
+      taffy_compute_root teq disp pre abs_child leaf f t avail = Some u ->
+      taffy_compute_root teq disp pre abs_child leaf f' t' avail = Some u' ->
+      EngineAbsKey.asim (TStyle T) (FIn T) (LayoutOutput T) (FLay T) t_visible_absolute _ t_lines fout_eq flay_eq u u'.
+Proof. intros T N teq disp pre abs_child leaf Hloc f f' t t' avail u u'. exact (TaffyRootAbs.compute_root_asim teq disp pre abs_child leaf Hloc f f' t t' avail u u'). Qed.
+
+Theorem C06_taffy_layout_passes_partial :
+  forall (T : Type) (N : Num T) (teq : T -> T -> bool) (disp : TStyle T -> nat -> TKind) (pre : BStyle T -> BIn T -> BIn T)
+         (abs_child : @AbsChild T) (leaf : TStyle T -> FIn T -> LayoutOutput T),
+    AbsChildLocal abs_child ->
+    forall f f' avails (t t' : Engine.tree (TStyle T) (FIn T) (LayoutOutput T) (FLay T)) ls u ls' u',
+      EngineAbsKey.asim (TStyle T) (FIn T) (LayoutOutput T) (FLay T) t_visible_absolute _ t_lines fout_eq flay_eq t t' ->
+      t_visible_absolute (style_of (TStyle T) (FIn T) (LayoutOutput T) (FLay T) t) = false ->
+      taffy_passes teq disp pre abs_child leaf f t avails = Some (ls, u) ->
+      taffy_passes teq disp pre abs_child leaf f' t' avails = Some (ls', u') ->
+      EngineAbsKey.asim (TStyle T) (FIn T) (LayoutOutput T) (FLay T) t_visible_absolute _ t_lines fout_eq flay_eq u u'.
+Proof. intros T N teq disp pre abs_child leaf Hloc f f' avails t t' ls u ls' u'. exact (TaffyRootAbs.passes_asim teq disp pre abs_child leaf Hloc f f' avails t t' ls u ls' u'). Qed.
+
+(* computed: two passes (available width 300, then 150) of the REAL instance with representation keys on ak / ak' (above): both succeed; the
+   boxes after the second pass coincide outside the absolute node's subtree, the root's own box (200 x 20) included *)
+Example C06_taffy_layout_passes_example :
+  match real_layout_passes xq_seqb 8 ak [ex_avail 300%Z; ex_avail 150%Z], real_layout_passes xq_seqb 8 ak' [ex_avail 300%Z; ex_avail 150%Z] with
+  | Some (_, u), Some (_, u') =>
+      boxes_are (bxz u)  [(0,0,200,20); (0,0,200,10); (0,0,20,10); (50,0,40,15); (0,0,33,44); (50,0,50,10); (0,10,10,10)]%Z
+      && boxes_are (bxz u') [(0,0,200,20); (0,0,200,10); (0,0,20,10); (50,0,99,77); (50,0,50,10); (0,10,10,10)]%Z
+  | _, _ => false
+  end = true.
+Proof. vm_compute. reflexivity. Qed.
+
+Print Assumptions C06_grid_algorithm_abs_blind_refuted_no_panic.
+Print Assumptions C06_taffy_layout_pass_partial.
+Print Assumptions C06_taffy_layout_passes_partial.
+Print Assumptions C06_taffy_layout_passes_example.
+Print Assumptions C06_grid_algorithm_abs_blind_lines_example.
+Print Assumptions C06_taffy_engine_example.
